@@ -15,6 +15,7 @@ pub mod props_policy;
 pub mod props_ra;
 pub mod rfc4861;
 pub mod props_crash;
+pub mod props_crashpoint;
 pub mod props_dnsconc;
 pub mod props_dnsfunc;
 pub mod props_dnsroute;
@@ -116,6 +117,10 @@ pub fn run_check(id: &str, tier: Tier) -> i32 {
         "C18" => {
             ctx.rule("reopen: twin histories (file-backed, reopened at generated points) vs uninterrupted in-memory twin; oldschema: generated v0/v1/newer databases; non-trivial = reopen with live leases of >=2 clients / a database with rows");
             props_dhcp::run_c18_func(&ctx);
+            if ctx.violations.lock().unwrap().is_empty() {
+                ctx.rule("crash-points: a child process performs scripted allocations (new clients, renewals, a full pool) through Pool::verif_open under strace fault injection, killed with SIGKILL at the n-th write-like call (write, pwrite64, pwritev, writev, fsync, fdatasync, ftruncate) on the database file or its rollback journal, for every n until the script completes; after each kill: the database opens, every lease acknowledged before the kill is present, SQLite's integrity check passes, rows are well-formed and unique per address, the acknowledged clients get their addresses again and a new client does not get one of them; non-trivial = every enumerated kill");
+                props_crashpoint::run_c18_crashpoints(&ctx);
+            }
             if wire_ok && ctx.violations.lock().unwrap().is_empty() {
                 ctx.rule("wire-kill: a stream of DISCOVER/REQUEST frames from 4..16 clients to the real erbium-dhcp, SIGKILL after a generated number of frames + 0..2000 us; then: the database opens, every row is well-formed, every lease whose reply was captured before the kill has its row, and the restarted server offers the same clients the same addresses");
                 props_netwire::run_c18_kill(&ctx);
@@ -126,7 +131,7 @@ pub fn run_check(id: &str, tier: Tier) -> i32 {
             ctx.rule("upgraded-db: the same walk over a lease file written in the layout of an older release (no version row / version 0 / version 1 whose option blobs are NULL), 1..8 pre-existing rows owned by world clients or strangers, active and expired, followed by a generated history; non-trivial = rows written before the option column existed are still stored at the end");
             props_dhcp::run_c20_func(&ctx);
             if wire_ok && ctx.violations.lock().unwrap().is_empty() {
-                ctx.rule("wire-listing: 2..40 (thorough 250) DHCP clients whose client-identifier and host-name options are drawn from byte strings 0..255 with quotes, backslashes, C0 controls, DEL, invalid UTF-8, multi-byte and U+2028 against the real erbium; GET /api/v1/leases.json must parse with a strict JSON parser and be in bijection (address, client id bytes, start, expiry) with the rows read from the same SQLite file; gauges from /metrics equal the harness's count before any generated lease and after ageing every n-th row");
+                ctx.rule("wire-listing: 2..40 (thorough 250) DHCP clients whose client-identifier and host-name options are drawn from byte strings 0..255 with quotes, backslashes, C0 controls, DEL, invalid UTF-8, multi-byte and U+2028 against the real erbium; GET /api/v1/leases.json must parse with a strict JSON parser and be in bijection (address, client id bytes, start, expiry) with the rows read from the same SQLite file; gauges from /metrics equal the harness's count before any generated lease and after ageing every n-th row; eight times a burst of 30 back-to-back DISCOVERs from new clients is sent and the gauges are scraped while the server is still working through it: the scrape, taken between two listings, must report a count between theirs");
                 props_netwire::run_c20_wire(&ctx);
             }
         }
@@ -182,7 +187,7 @@ pub fn run_check(id: &str, tier: Tier) -> i32 {
             props_crash::run_c05_func(&ctx);
             fuzzdrv::run_for(&ctx, "C05");
             if wire_ok && ctx.violations.lock().unwrap().is_empty() {
-                ctx.rule("wire-dns: batches of 16..64 hostile byte strings (seed packets, members of the boundary family, extra edits) delivered to the real erbium-dns as UDP datagrams, as TCP frames, and as upstream replies over UDP and over TCP; after every batch: no panic line in the server log, process alive, a well-formed query over UDP and over TCP answered with its own answer");
+                ctx.rule("wire-dns: first a matrix of well-formed queries (refused by type ANY/AXFR, refused for lack of RD, ordinary) x 14 sizes from tiny to 3000 octets (EDNS padding, a large unknown option plus NSID, extra records) over UDP and TCP; then batches of 16..64 hostile byte strings (seed packets, members of the boundary family, extra edits) delivered to the real erbium-dns as UDP datagrams, as TCP frames, and as upstream replies over UDP and over TCP; after every batch: no panic line in the server log, process alive, a well-formed query over UDP and over TCP answered with its own answer");
                 props_dnswire2::run_c05_wire(&ctx);
             }
             if wire_ok && ctx.violations.lock().unwrap().is_empty() {
@@ -218,7 +223,7 @@ pub fn run_check(id: &str, tier: Tier) -> i32 {
             ctx.assume("the mtu / lifetime tri-state resolution against interface and routing table lives in the impure wrapper and is decided by the wire tier; the hook takes the resolved values as parameters");
             props_ra::run_c17_func(&ctx);
             if wire_ok && ctx.violations.lock().unwrap().is_empty() {
-                ctx.rule("wire-ra: the nine mtu x lifetime tri-state combinations (absent / null / value) configured for the server-side interface of the veth rig on the real erbium (thorough: plus 60 generated interface sections); a router solicitation is injected as a raw frame, the advertisement captured: hop limit 255, ICMPv6 checksum verifies, body decoded by the RFC decoder and compared with expected(config) where mtu absent => interface MTU, null => no option; lifetime absent/null => 0 (no default route in the rig)");
+                ctx.rule("wire-ra: mtu {absent, null, 1400, 9000} x lifetime {absent, null, value} plus mtu 1280, 1500 and 65535 (below, at and above the 1500 of the link) configured for the server-side interface of the veth rig on the real erbium, plus 12 (thorough 120) generated interface sections; a router solicitation is injected as a raw frame, the advertisement captured: hop limit 255, ICMPv6 checksum verifies, body decoded by the RFC decoder and compared with expected(config) where mtu absent => interface MTU, null => no option; lifetime absent/null => 0 (no default route in the rig)");
                 props_netwire::run_c17_wire(&ctx);
             }
         }
@@ -244,7 +249,7 @@ pub fn run_check(id: &str, tier: Tier) -> i32 {
             ctx.rule("bucket: burst B and rate R inferred black-box, then generated arrival sequences (dt in {0,1,2,10,49,50,51,10^4} s, sizes 0..3.2B) applied check-then-deplete as the limiter does, on a harness clock; oracle: every window's granted volume <= B + R*span (+R per grant rounding), idle >= B/R => request <= B granted; non-trivial = grant after a denial or an idle gap");
             props_dnsfunc::run_c16_func(&ctx);
             if wire_ok && ctx.violations.lock().unwrap().is_empty() {
-                ctx.rule("wire-limiter: on a fresh erbium-dns per case: (1) 1..4 sources that never spoke send one refused (ANY) query each over UDP and must get one REFUSED; (2) a burst of 200..2000 refused queries from one source address (spread over eight source ports) gets REFUSED for at most a quarter, and not more than a 200-query burst from another source (+2), and a second burst from the same source 0.3 s later gets at most 2; (3) a server cookie obtained from an answered query exempts a 60-query burst only with the same client cookie, source and server address; presented from another source, to another server address, with a flipped bit, with an invented server part, after a restart, or with a server part computed by the public algorithm (HMAC-SHA256 over client cookie, server address, client address) under a guessable key (all-zero, all-ones, 01..08) it does not");
+                ctx.rule("wire-limiter: on a fresh erbium-dns per case: (1) 1..4 sources that never spoke send one refused (ANY) query each over UDP and must get one REFUSED; (2) a burst of 200..2000 refused queries from one source address (spread over eight source ports) gets REFUSED for at most a quarter, and not more than a 200-query burst from another source (+2), and a second burst from the same source 0.3 s later gets at most 2; (3) a server cookie obtained from an answered query exempts a 60-query burst only with the same client cookie, source and server address; presented from another source, to another server address, with a flipped bit, with an invented server part, after a restart, or with a server part computed by the public algorithm (HMAC-SHA256 over client cookie, server address, client address) under a guessable key (all-zero, all-ones, 01..08), or cut to 1, 8 or 16 octets of server part it does not; (4) a source past its allowance tries all 256 one-octet server parts, none of which may exempt it");
                 ctx.assume("key rotation (24..36 h) cannot be driven in a running server: acceptance under the previous key and rejection after two rotations are not covered");
                 props_dnswire2::run_c16_wire(&ctx);
             }
@@ -282,7 +287,8 @@ pub fn run_replay(path: &str) -> i32 {
         .or_else(|| props_ra::replay(id, sub, case))
         .or_else(|| props_acl::replay(id, sub, case))
         .or_else(|| props_policy::replay(id, sub, case))
-        .or_else(|| fuzzdrv::replay(sub, case));
+        .or_else(|| fuzzdrv::replay(sub, case))
+        .or_else(|| props_crashpoint::replay(id, sub, case));
     let res = match res {
         Some(r) => Some(r),
         None => {
